@@ -18,6 +18,13 @@ CLAIMED["C06"] = {
   "technique": "deterministic simulation with fault injection (abort/restart at seeded crash points, lagging mv/cp, clock jumps); history checked against a write-log reference model",
 }
 
+CLAIMED["C04"] = {
+  "text": "Seeded search over reactor states reached inside real runs: sim actors change parameters of several value kinds on every level, number densities, temperatures, dimensions, block heights, rotate assemblies and swap them through the real fuel handler between database writes; at every acknowledged write an observational digest of the live reactor is taken through public queries (tree, names, serial numbers, child order, grids, locators, global coordinates, every persistent parameter, materials, temperatures, dimensions with links, number densities, area/volume/mass). The reader loads a seed-chosen sample of snapshots and compares field by field, loads twice, saves the loaded reactor to a new file and loads that. Sampling, not proof.",
+  "design_ref": "DESIGN.md §3.5",
+  "note": "Trusted: the digest/compare code (worlds/obsdigest.py), h5py. Comparison rules fixed in DESIGN.md: 1e-12 relative, sequences by value, unassigned == default, child order vs the model's own sort, free-coordinate vs index locator accepted when global coordinates agree. Workloads keep the state physical (no component overlap) and derived mass parameters consistent.",
+  "technique": "deterministic simulation of runs writing to real HDF5 storage; write/restart-load round trip checked against an observational digest taken at acknowledgement time",
+}
+
 NA = {
  "C07": "pure function of (grid, index): no event order, clock, I/O or fault to simulate; exhaustive enumeration over N rings is the right tool, not simulation (DESIGN.md §6)",
  "C08": "pure functions of (grid, cell, k) and of a block's contents; rotations appear only as workload in the simulated runs (DESIGN.md §6)",
